@@ -47,9 +47,11 @@ namespace occa {
 
       void addRef(entry_t *entry);
     #if OCCA_THREAD_SHARABLE_ENABLED
-      void removeRef(entry_t *entry, const bool threadLock = true);
+      // Returns true when the removed entry was the last reference (the caller frees the object)
+      bool removeRef(entry_t *entry, const bool threadLock = true);
     #else
-      void removeRef(entry_t *entry);
+      // Returns true when the removed entry was the last reference (the caller frees the object)
+      bool removeRef(entry_t *entry);
     #endif
 
       bool needsFree() const;
